@@ -17,6 +17,7 @@ inline int point_code(const char *id) {
         {"step", 30},   {"busy_x", 40}, {"busy_s", 41}, {"sf_dec", 50},   {"sf_sub", 51},
         {"p_lock", 60}, {"p_wait", 61}, {"p_join", 62}, {"q_lock", 70},
         {"q_res", 71},  {"q_wait", 72},
+        {"busy_g", 42},
     };
     for (auto &p : tbl)
         if (!std::strcmp(p.first, id)) return p.second;
